@@ -208,3 +208,8 @@ def run(ctx):
 MUTANTS = [{'name': 'or-receiver-swapped', 'file': 'src/settings.rs', 'old': 'index: self.index.or(source.index),', 'new': 'index: source.index.or(self.index),', 'expect': ('R36.1', 'Settings::or', 'index = self.index.or')},
            {'name': 'env-before-flags', 'file': 'src/settings.rs', 'old': 'let settings = Settings::from_options(options).or(Settings::from_env(env)?);', 'new': 'let settings = Settings::from_env(env)?.or(Settings::from_options(options));', 'expect': ('R36.2', 'Settings::merge', 'from_options(options).or(from_env')},
            {'name': 'env-key-crossed', 'file': 'src/settings.rs', 'old': 'index_runes: get_bool("INDEX_RUNES"),', 'new': 'index_runes: get_bool("INDEX_SATS"),', 'expect': ('R36.3', 'from_env', 'index_runes <- get_bool')}]
+
+
+# behaviour-preserving edits (thorough tier): the rules must stay silent on every one of them
+NEUTRAL = [{'name': 'Settings::or: two fields listed in another order', 'file': 'src/settings.rs', 'old': '      chain: self.chain.or(source.chain),\n      commit_interval: self.commit_interval.or(source.commit_interval),', 'new': '      commit_interval: self.commit_interval.or(source.commit_interval),\n      chain: self.chain.or(source.chain),'},
+           {'name': 'Settings::or: bool operands commuted', 'file': 'src/settings.rs', 'old': 'index_sats: self.index_sats || source.index_sats,', 'new': 'index_sats: source.index_sats || self.index_sats,'}]
